@@ -26,6 +26,9 @@ from tools.manifest_table import fill  # noqa: E402
 fill(claim, na)
 
 props = [json.loads(l)["id"] for l in open(os.path.join(HERE, "properties.jsonl"))]
+both = [p for p in props if p in CLAIMED and p in NOT_APPLICABLE]
+if both:
+    raise SystemExit(f"properties both claimed and not_applicable: {both}")
 missing = [p for p in props if p not in CLAIMED and p not in NOT_APPLICABLE]
 if missing:
     raise SystemExit(f"properties neither claimed nor not_applicable: {missing}")
